@@ -329,7 +329,7 @@ class Result:
                 print("# %s" % what[:600])
             shown += 1
         # one VIOLATION line per distinct replay (first 20)
-        for path, nf, what in self.violations[:20]:
+        for path, nf, what in self.violations[:5]:
             print("VIOLATION property=%s replay=%s%s" % (self.prop, path, " no-failing-input-found" if nf else ""))
         sys.stdout.flush()
         return 1 if self.violations else 0
